@@ -424,6 +424,7 @@ install_handlers()
         sigaction(SIGBUS, &sa, nullptr);
         sigaction(SIGILL, &sa, nullptr);
         sigaction(SIGFPE, &sa, nullptr);
+        sigaction(SIGALRM, &sa, nullptr); // watchdog: a library call that never returns
 }
 
 // find the caller object nearest to a faulting address
@@ -1432,6 +1433,7 @@ run_plan(const Plan &p, const RunOpts &o)
         int sig = sigsetjmp(g_jmp, 1);
         if (sig == 0) {
                 g_jmp_armed = 1;
+                alarm(20); // no simulated run takes more than a second or two; a spinning library call ends the run here
                 for (size_t i = 0; i < c.tasks.size(); i++) {
                         if (o.only_task >= 0 && (int) i != o.only_task)
                                 continue;
@@ -1511,10 +1513,23 @@ run_plan(const Plan &p, const RunOpts &o)
                         }
         done:
                 g_jmp_armed = 0;
+                alarm(0);
         } else {
                 // a signal ended the run
+                alarm(0);
                 res.crashed = true;
                 char b[256];
+                if (sig == SIGALRM) {
+                        snprintf(b, sizeof b, "%s did not return within 20 s (op %d): the library is spinning", g_callctx.name, c.op_index);
+                        Violation v;
+                        v.prop = p.prop;
+                        v.oracle = "hang";
+                        v.detail = b;
+                        v.op_index = c.op_index;
+                        v.key = std::string("hang;fn=") + g_callctx.name;
+                        res.viols.push_back(v);
+                        g_dm_cur.active = false;
+                } else
                 if (g_dm_cur.active) {
                         snprintf(b, sizeof b, "%s with argument %d ('%c') %s faulted (signal %d at rip %p accessing %p%s) instead of returning an error",
                                  g_dm_cur.fn, g_dm_cur.arg, g_dm_cur.kind, g_dm_cur.how, sig, g_fault.rip, g_fault.addr,
